@@ -326,3 +326,7 @@ impl BufferParser for Parser {
         Ok(CallbackAction::Update)
     }
 }
+
+#[cfg(any(kani, icy_engine_verif))]
+#[path = "/verif/kc/viewdata_harness.rs"]
+mod verif_kani;
